@@ -326,6 +326,8 @@ func (a Alg) ConstValue() (*big.Rat, bool) {
 // AlgEnv binds SSA values (parameters, free variables) to symbols or expressions.
 type AlgEnv struct {
 	Bind map[ssa.Value]Alg
+	// Structs: values (receiver parameters, free variables) standing for a small carrier struct whose fields are known
+	Structs map[ssa.Value]map[int]Alg
 	// NonNeg: symbols assumed >= 0 (a branch `x < 0` is not taken).
 	NonNeg map[string]bool
 	// Truncs counts float->integer conversions passed (they are read as identity: "rounded down" is stated by the rule).
@@ -384,6 +386,13 @@ func (e *AlgEnv) Eval(v ssa.Value, depth int) (Alg, bool) {
 		return a, ok
 	case *ssa.ChangeType:
 		return e.Eval(x.X, depth+1)
+	case *ssa.Field:
+		if fs, ok := e.structFields(x.X, depth); ok {
+			if a, ok := fs[x.Field]; ok {
+				return a, true
+			}
+		}
+		return e.fail("field #%d of %s has no single known value", x.Field, x.X)
 	case *ssa.UnOp:
 		if x.Op == token.SUB {
 			a, ok := e.Eval(x.X, depth+1)
@@ -395,6 +404,14 @@ func (e *AlgEnv) Eval(v ssa.Value, depth int) (Alg, bool) {
 		if x.Op == token.MUL {
 			if a, ok := e.Bind[x.X]; ok {
 				return a, true // a variable captured by reference, bound to its only value
+			}
+			if fa, ok := x.X.(*ssa.FieldAddr); ok {
+				if fs, ok := e.structFields(fa.X, depth); ok {
+					if a, ok := fs[fa.Field]; ok {
+						return a, true
+					}
+				}
+				return e.fail("field #%d of %s has no single known value", fa.Field, fa.X)
 			}
 			if cell, ok := x.X.(*ssa.Alloc); ok {
 				sts := StoresTo(cell)
@@ -570,6 +587,60 @@ func (e *AlgEnv) isNonNegSymbol(a Alg) bool {
 	return false
 }
 
+// structFields: the field values of a small carrier struct: a bound receiver, or a struct made in the function under
+// evaluation (an Alloc whose fields are each stored once, or a load of it).
+func (e *AlgEnv) structFields(v ssa.Value, depth int) (map[int]Alg, bool) {
+	v = Strip(v)
+	if fs, ok := e.Structs[v]; ok {
+		return fs, true
+	}
+	if u, ok := v.(*ssa.UnOp); ok && u.Op == token.MUL {
+		v = u.X
+		if fs, ok := e.Structs[v]; ok {
+			return fs, true
+		}
+	}
+	cell, ok := v.(*ssa.Alloc)
+	if !ok || cell.Referrers() == nil {
+		return nil, false
+	}
+	// a spilled value receiver / a copy: one whole-struct store
+	var whole []*ssa.Store
+	for _, r := range *cell.Referrers() {
+		if st, ok := r.(*ssa.Store); ok && st.Addr == ssa.Value(cell) {
+			whole = append(whole, st)
+		}
+	}
+	if len(whole) == 1 && depth < 40 {
+		return e.structFields(whole[0].Val, depth+1)
+	}
+	if len(whole) > 1 {
+		return nil, false
+	}
+	out := map[int]Alg{}
+	for _, r := range *cell.Referrers() {
+		fa, ok := r.(*ssa.FieldAddr)
+		if !ok || fa.Referrers() == nil {
+			continue
+		}
+		for _, r2 := range *fa.Referrers() {
+			st, ok := r2.(*ssa.Store)
+			if !ok || st.Addr != ssa.Value(fa) {
+				continue
+			}
+			if _, dup := out[fa.Field]; dup {
+				return nil, false // written twice: not a constant carrier
+			}
+			a, ok := e.Eval(st.Val, depth+1)
+			if !ok {
+				return nil, false
+			}
+			out[fa.Field] = a
+		}
+	}
+	return out, len(out) > 0
+}
+
 // ClosureResult evaluates what the function value fv returns when called with the given arguments: fv is a closure made
 // (directly, or as the single result of a same-package helper such as lineDoAt(a, b)) from expressions of the
 // environment. args are bound to the closure's parameters.
@@ -580,6 +651,22 @@ func (e *AlgEnv) ClosureResult(fv ssa.Value, args []Alg, depth int) (Alg, bool) 
 		body, _ := x.Fn.(*ssa.Function)
 		if body == nil {
 			return e.fail("closure without a body")
+		}
+		if body.Synthetic != "" && len(x.Bindings) == 1 {
+			// a method value (carrier.doAt): the method's body with the receiver standing for the bound carrier
+			if m := BoundTarget(body); m != nil && len(m.Params) > 0 {
+				fs, ok := e.structFields(x.Bindings[0], depth)
+				if !ok {
+					return e.fail("the receiver bound by the method value %s is not a struct with known fields", m.Name())
+				}
+				sub := &AlgEnv{Bind: map[ssa.Value]Alg{}, NonNeg: e.NonNeg, Structs: map[ssa.Value]map[int]Alg{m.Params[0]: fs}}
+				for i, p := range m.Params[1:] {
+					if i < len(args) {
+						sub.Bind[p] = args[i]
+					}
+				}
+				return e.bodyResult(m, sub, nil, depth)
+			}
 		}
 		sub := &AlgEnv{Bind: map[ssa.Value]Alg{}, NonNeg: e.NonNeg}
 		for i, b := range x.Bindings {
